@@ -1,5 +1,5 @@
 """BEC2: builders, seams (logging wrappers registered through the public registry) and recorders."""
-import io, os, hashlib
+import io, os, hashlib, tempfile
 
 from .common import B
 from . import bf3lib as L
@@ -187,7 +187,21 @@ def rec_bec2_read(rec, text, decs, ecc_privs, oracle, check=True, auth=None, **e
     except Exception:
         ev["ecckeys"] = []
     try:
-        g = Bec2File.read_file(io.StringIO(text), objs, check)
+        form = rec.tid % 5
+        if form == 1:
+            with tempfile.TemporaryDirectory(prefix="verif_b2r_") as td:
+                pth = os.path.join(td, "r.bec2")
+                with open(pth, "wb") as fh:
+                    fh.write(text.encode("utf-8"))
+                g = Bec2File.read_file(pth, objs, check)
+        elif form == 2:
+            g = Bec2File.read_file(check_cmac=check, ext_encryptors=objs, bf3file=io.StringIO(text))
+        elif form == 3 and check is True:
+            g = Bec2File.read_file(io.StringIO(text), tuple(objs))            # MAC checking is the documented default
+        elif form == 4:
+            g = Bec2File.read_file(io.StringIO(text), iter(list(objs)), check)
+        else:
+            g = Bec2File.read_file(io.StringIO(text), objs, check)
         pj = proj_bec2(g)
         ev.update({"key": pj["key"], "blocks": pj["blocks"], "comps": pj["comps"], "comments": pj["comments"]})
     except BaseException as e:                                  # noqa: BLE001
